@@ -23,12 +23,12 @@ LEVEL_NOTE = ('Flux values from a fixed + seed-derived alphabet; the first file 
 RULE = ("cases: (n_ap, distance, n_wav, spectral order) configurations x stored unit A; executions: for every B: read A as B, write, read back as A, and for every C compare "
         "read(B-file, C) with read(A-file, C); non-trivial = distinct (configuration, A, B) with A != B")
 ASSUMPTIONS = ["positive finite fluxes and frequencies", "distance taken from the file header"]
-REQUIRED_CLASSES = ['legacy-unit-strings', 'zero-flux-cell', 'error-column-in-other-unit', 'float32-file', 'distance-keyword-absent', 'pair-different-family', 'chain-ABA', 'chain-ABC', 'unsupported-refused', 'luminosity-with-distance!=1kpc', 'nu-decreasing-in-file', 'multi-aperture']
+REQUIRED_CLASSES = ['fluxes-spanning-many-decades', 'spectral-axis-requested-in-GHz-and-nm', 'unsupported-error-unit-refused', 'legacy-unit-strings', 'zero-flux-cell', 'error-column-in-other-unit', 'float32-file', 'distance-keyword-absent', 'pair-different-family', 'chain-ABA', 'chain-ABC', 'unsupported-refused', 'luminosity-with-distance!=1kpc', 'nu-decreasing-in-file', 'multi-aperture']
 TIMEOUT = {'quick': 300, 'thorough': 1800}
 
 UNITS = ['mJy', 'Jy', 'erg / (cm2 s)', 'erg / s', 'W / m2']
 FITS_UNIT = {'mJy': 'mJy', 'Jy': 'Jy', 'erg / (cm2 s)': 'erg s-1 cm-2', 'erg / s': 'erg s-1', 'W / m2': 'W m-2'}
-AXES = {'n_ap': [2, 0, 1, 5], 'n_wav': [3, 2, 10], 'order': ['nu-inc', 'nu-dec'], 'err_unit': ['same', 'other'], 'f32': [False, True], 'legacy': [False, True], 'zero': [False, True]}
+AXES = {'n_ap': [2, 0, 1, 5], 'n_wav': [3, 2, 10], 'order': ['nu-inc', 'nu-dec'], 'err_unit': ['same', 'other'], 'f32': [False, True], 'legacy': [False, True], 'zero': [False, True], 'faint': [False, True]}
 DISTS = ['1kpc', '140pc', 'absent', '3.3e22cm', '1kpc']      # visited in this order inside every case (same grid, same units, other distance)
 DIST_CM = {'1kpc': pkgwriter.KPC_CM, '140pc': 140 * pkgwriter.KPC_CM / 1000.0, '3.3e22cm': 3.3e22, 'absent': pkgwriter.KPC_CM}
 
@@ -90,6 +90,14 @@ def _one_distance(ctx, case, rec, d):
         base = base.copy()
         base[0, n_wav // 2] = 0.0          # one flux is exactly zero (its error is not)
         rec.cls('zero-flux-cell')
+    if case.get('faint') or case.get('f32'):
+        # a spectrum spanning many decades (the far-ultraviolet tail of a photosphere): entries 16 and (double-precision files) 24 decades below the rest
+        base = base.copy()
+        base[:, 0] *= 1e-16
+        if not case.get('f32'):
+            base[-1, 1] *= 1e-24          # (in a single-precision file the converted value would leave the range of the type)
+        err = np.where(base > 0, base * 0.125, err)
+        rec.cls('fluxes-spanning-many-decades')
     ap = None if n_ap == 0 else 100.0 * 10.0 ** np.arange(n_ap)
     if n_ap >= 2:
         rec.cls('multi-aperture')
@@ -132,10 +140,19 @@ def _one_distance(ctx, case, rec, d):
     for B in UNITS:
         sub = {'A': A, 'B': B}
         uB = u.Unit(B)
+        # the spectral axis may be asked for in other units too; fluxes do not depend on that
+        other_axis = ((UNITS.index(B) + n_wav + n_ap) % 2 == 1)
         try:
-            rb = SED.read(fa, unit_flux=uB)
+            if other_axis:
+                rb = SED.read(fa, unit_flux=uB, unit_freq=u.GHz, unit_wav=u.nm)
+                rec.cls('spectral-axis-requested-in-GHz-and-nm')
+            else:
+                rb = SED.read(fa, unit_flux=uB)
         except Exception as e:
             rec.violation('read|exception', sub, {'type': type(e).__name__, 'msg': str(e)[:200]})
+            continue
+        if other_axis and not (rb.nu.unit == u.GHz and rb.wav.unit == u.nm):
+            rec.violation('read|spectral-axis-unit', sub, {'nu_unit': str(rb.nu.unit), 'wav_unit': str(rb.wav.unit)})
             continue
         rec.ev()
         rec.trans()
@@ -179,6 +196,16 @@ def _one_distance(ctx, case, rec, d):
                 rec.violation('chain|A->B->C', dict(sub, C=C), {'via_B': rc.flux.value[0][:4], 'direct': readC_from_A[C][0][:4]})
                 break
         rec.trace()
+    # a file whose flux column is fine but whose error column carries an unsupported unit is refused as well
+    if case.get('_deviations', 0) == 0:
+        for bad_err in ('K', 'erg s-1 cm-2 Angstrom-1'):
+            pkgwriter.write_sed_file(d, 'm', wav, base, err, apertures_au=ap, unit=FITS_UNIT[A], err_unit=bad_err, filename='bad_err.fits')
+            try:
+                SED.read(os.path.join(d, 'seds', 'bad_err.fits'), unit_flux=u.Unit(A))
+                rec.violation('convert|unsupported-accepted', {'A': A, 'error_column_unit': bad_err}, {'problem': 'a file whose error column is in an unsupported unit was read without complaint'})
+            except Exception:
+                rec.cls('unsupported-error-unit-refused')
+            rec.ev()
     for badu in (u.K, u.m, u.Hz):
         try:
             SED.read(fa, unit_flux=badu)
